@@ -119,11 +119,9 @@ def step (s : S) (op ans : List String) : S × String :=
           | none => (s, "bad op")
           | some r =>
             let n := nrec.toNat!
-            let old := i.bytes.length
             -- after a successful growth the caller fills the new records
-            eaJudge s i (.resize n r) ans "resize: wrong status/size, changed on failure, or outside factor 4"
-              (fun i' => if i'.bytes.length > old then
-                  { i' with bytes := i'.bytes.take old ++ patBytes seed.toNat! (i'.bytes.length - old) } else i')
+            let fill := if n * r.val ≤ dataMax then patBytes seed.toNat! (n * r.val - i.bytes.length) else []
+            eaJudge s i (.resize n r fill) ans "resize: wrong status/size, changed on failure, or outside factor 4"
         | "ea_append", [nrec, reclen, seed] =>
           match mkRecLen reclen.toNat! with
           | none => (s, "bad op")
